@@ -9,6 +9,8 @@
 #include "soplex_interface.h"
 #include <climits>
 #include <memory>
+#include <fcntl.h>
+#include <sys/wait.h>
 
 using namespace vf;
 using soplex::Rational;
@@ -28,6 +30,12 @@ static const char* K_ROWVECRAT = "getrowvecrat-null-svector"; // SoPlex_getRowVe
 static const char* K_SYNCSCALED = "sync-auto-copies-scaled-lp";  // SYNCMODE_AUTO entered while the real LP is persistently scaled
 static const char* K_MISSING = "cread-missing-file-throws";   // read*File on a missing file: exception instead of 0
 static const char* K_MPSFREE = "cwrite-mps-free-row-throws";   // writeFileReal(.mps) with a free row throws (S10)
+static const char* K_OVERSIZED = "infeasible-exact-solve-oversized-solution";  // primal/redcost keep the auxiliary column: get*Real overflow
+static const char* K_VECINF = "getbound-vector-scales-infinity";  // getLowerReal/getUpperReal(vector) scale +-infinity on a scaled LP
+static const char* K_SOLVEDIM = "exact-solve-changes-real-lp";  // optimize() in rational mode returns with a real LP that lost/gained rows or columns
+static const char* K_SCALEROFF = "scaler-off-on-scaled-lp";  // SCALER_OFF after a solve left the LP scaled: getRowVectorReal calls a null scaler
+static const char* K_SOLVEDATA = "exact-solve-changes-lp-data";  // optimize() returns with changed coefficients (LIFTING: _project() does not restore lifted entries)
+static const char* K_IMPLSCALED = "implicit-create-on-scaled-lp";  // entry beyond the dimension after a solve: doAddRow/doAddCol read scaleExp out of bounds
 static bool known(const char* key)
 {
    auto it = opts().x.find("known");
@@ -487,7 +495,7 @@ static void genIntParam(Rec& r, bool forFile)
    }
    case S::SIMPLIFIER:
    {
-      static const int c[] = {1, 0, 2, 3};   // AUTO, OFF, INTERNAL, PAPILO (rejected in a build without PaPILO)
+      static const int c[] = {1, 0, 3, 2};   // AUTO, OFF, INTERNAL, PAPILO (rejected in a build without PaPILO)
       v = c[R(0, forFile ? 2 : 3)];
       break;
    }
@@ -879,6 +887,9 @@ struct Runner
    std::vector<std::string> files;
    int fileNo = 0;
    bool needAnchor = false, threw = false, allowThrow = false;
+   const std::string* caseTextForCrash = nullptr;
+   int crashNo = 0;
+   bool maybeScaled = false;   // an optimize() ran since the LP was last created / cleared / read (persistent scaling)
    bool hadRat = false, hadAdd = false, modAfterAdd = false, solved = false, queried = false;
 
    void cnt(const char* fn)
@@ -900,6 +911,7 @@ struct Runner
       // every client silences the log first; done through the C call on one side and the C++ call on the other
       SoPlex_setIntParam(h, SoPlex::VERBOSITY, SoPlex::VERBOSITY_ERROR);
       tw->setIntParam(SoPlex::VERBOSITY, SoPlex::VERBOSITY_ERROR);
+      maybeScaled = false;
       M = Model();
       M.lp.sense = SoPlex::Settings::intParam.defaultValue[SoPlex::OBJSENSE];   // documented default (maximise)
       M.lp.offset = qd(SoPlex::Settings::realParam.defaultValue[SoPlex::OBJ_OFFSET]);
@@ -1060,6 +1072,7 @@ bool Runner::step(const Rec& r)
    {
       both("clearLPReal", [&] { SoPlex_clearLPReal(h); }, [&] { tw->clearLPReal(); });
       M.clear();
+      maybeScaled = false;
       return true;
    }
    if(t == "setRational" || (t == "setIntParam" && r.i(0) == SoPlex::SYNCMODE && r.i(1) == SoPlex::SYNCMODE_AUTO))
@@ -1098,6 +1111,15 @@ bool Runner::step(const Rec& r)
    {
       int code = (int) r.i(0), val = (int) r.i(1);
       if(code < 0 || code >= SoPlex::INTPARAM_COUNT || (code == SoPlex::SYNCMODE && val == SoPlex::SYNCMODE_MANUAL)) return true;
+      if(code == SoPlex::SCALER && val == SoPlex::SCALER_OFF && maybeScaled)
+      {
+         ev().count("scaler_off_after_solve");
+         if(known(K_SCALEROFF))
+         {
+            ev().count(std::string("excluded_known.") + K_SCALEROFF);
+            return true;
+         }
+      }
       bool ok = false;
       if(!both("setIntParam", [&] { SoPlex_setIntParam(h, code, val); }, [&] { ok = tw->setIntParam((SoPlex::IntParam) code, val); })) return true;
       ev().count("intparam." + std::to_string(code) + (ok ? "" : ".rejected"));
@@ -1172,6 +1194,15 @@ bool Runner::step(const Rec& r)
          }
       }
       int nnz = nz + (int) r.i(2);
+      if(top > cur && maybeScaled)
+      {
+         ev().count("implicit_creation_after_solve");
+         if(known(K_IMPLSCALED))
+         {
+            ev().count(std::string("excluded_known.") + K_IMPLSCALED);
+            return true;
+         }
+      }
       Arr<double> a(ent);
       DSVectorReal vec;
       for(int i = 0; i < size; i++) if(ent[i] != 0.0) vec.add(i, ent[i]);
@@ -1338,6 +1369,77 @@ bool Runner::step(const Rec& r)
    }
    if(t == "optimize")
    {
+      if(m == 0 || n == 0)
+      {
+         // degenerate shapes are the business of the solve properties (a rational solve of an LP without columns
+         // reads uninitialised basis statuses in SPxMainSM::unsimplify); a client solves LPs that have rows and columns
+         ev().count("skipped.optimize_without_rows_or_columns");
+         return true;
+      }
+      {
+         // C20 is about the wrapper, not about the solver: a solve that crashes / trips a sanitizer / hangs in the C++
+         // API itself is outside the claim.  The twin's solve is tried first in a forked child; if the child dies the
+         // solve is not issued at all (counted, case text kept for the owners of the solve properties).
+         fflush(stdout);
+         fflush(stderr);
+         pid_t pid = opts().xi("nofork", 0) ? -1 : fork();
+         if(pid == 0)
+         {
+            int fd = open("/dev/null", O_WRONLY);
+            if(fd >= 0)
+            {
+               dup2(fd, 1);
+               dup2(fd, 2);
+            }
+            alarm(120);
+            try
+            {
+               // exactly what the parent would do for this step, then tear both objects down so that the allocator
+               // gets a chance to notice a corrupted heap
+               SoPlex_optimize(h);
+               tw->optimize();
+               if(co->numRows() != m || co->numCols() != n) _exit(3);   // the solve changed the LP it was asked to solve
+               if(!cmpModel(*co, M).empty()) _exit(4);
+               (void) cmpObjects(*co, *tw);
+               VectorReal x(n + 8), y(m + 8), d(n + 8);
+               co->getPrimalReal(x.get_ptr(), n + 8);
+               co->getDualReal(y.get_ptr(), m + 8);
+               co->getRedCostReal(d.get_ptr(), n + 8);
+               SoPlex_free(h);
+               delete tw.release();
+            }
+            catch(...)
+            {
+            }
+            _exit(0);
+         }
+         int st = 0;
+         bool waited = pid > 0 && waitpid(pid, &st, 0) == pid;
+         if(waited && WIFEXITED(st) && WEXITSTATUS(st) == 3)
+         {
+            ev().count("optimize_changes_lp_dimensions");
+            if(known(K_SOLVEDIM))
+            {
+               ev().count(std::string("excluded_known.") + K_SOLVEDIM);
+               return true;
+            }
+         }
+         else if(waited && WIFEXITED(st) && WEXITSTATUS(st) == 4)
+         {
+            ev().count("optimize_changes_lp_data");
+            if(known(K_SOLVEDATA))
+            {
+               ev().count(std::string("excluded_known.") + K_SOLVEDATA);
+               return true;
+            }
+         }
+         else if(waited && !(WIFEXITED(st) && WEXITSTATUS(st) == 0))
+         {
+            ev().count("unjudged.optimize_dies_in_cpp_api_too");
+            if(caseTextForCrash && opts().mode == "gen") writeFile(opts().dir + "/cpp_solver_crash_" + std::to_string(crashNo++ % 5) + ".case", *caseTextForCrash);
+            return true;
+         }
+      }
       int a = -100, b = -200;
       if(!both("optimize", [&] { a = SoPlex_optimize(h); }, [&] { b = (int) tw->optimize(); })) return true;
       if(a != b) return bad(t, "returned status differs from optimize() of the twin");
@@ -1346,6 +1448,7 @@ bool Runner::step(const Rec& r)
                  co->intParam(SoPlex::SOLVEMODE) == SoPlex::SOLVEMODE_RATIONAL ? ".rational" : ".auto"));
       if(co->numIterations() > 0) ev().count("solve.with_iterations");
       solved = true;
+      maybeScaled = true;
       return true;
    }
    if(stepQuery(r) || !v.ok) return v.ok;
@@ -1399,6 +1502,24 @@ bool Runner::stepQuery(const Rec& r)
       int need = t == "getDualReal" ? m : n;
       int mode = (int) r.i(0);
       int dim = mode == 1 ? need + 2 : (mode == 2 && need > 0) ? need - 1 : need;
+      {
+         // length of the stored solution vector, observed through the resizing C++ getter
+         VectorReal probe(need);
+         if(t == "getPrimalReal") co->getPrimal(probe);
+         else if(t == "getDualReal") co->getDual(probe);
+         else co->getRedCost(probe);
+         if(probe.dim() > need)
+         {
+            ev().count("stored_solution_longer_than_dimension");
+            if(known(K_OVERSIZED))
+            {
+               ev().count(std::string("excluded_known.") + K_OVERSIZED);
+               return true;
+            }
+            // not called: the wrapper would write probe.dim() doubles into a buffer of dim doubles
+            return !bad(t, "stored solution vector has more entries than the LP dimension; the call writes past a buffer of the documented size");
+         }
+      }
       Arr<double> a(dim, SENT), b(dim, SENT);
       bool ok = false;
       VectorReal ref(need);
@@ -1452,10 +1573,23 @@ bool Runner::stepQuery(const Rec& r)
    }
    if(t == "getLowerReal" || t == "getUpperReal" || t == "getObjReal")
    {
-      // dim is the length of the client's buffer: the full dimension or a prefix (the wrapper copies dim entries out of a
-      // vector of numCols entries, so dim > numCols has no defined meaning and is not generated)
-      int mode = (int) r.i(0);
-      int dim = (mode != 0 && n > 0) ? n - 1 : n;
+      // dim must be exactly numCols: the C++ getters assert vec.dim() == numCols on a scaled LP (and write numCols
+      // entries), and the wrapper copies dim entries out of a vector of numCols entries
+      int dim = n;
+      if(maybeScaled && t != "getObjReal")
+      {
+         bool inf = false;
+         for(int j = 0; j < dim; j++) if(!isFin(t == "getLowerReal" ? lp.lo[j] : lp.up[j])) inf = true;
+         if(inf)
+         {
+            ev().count("bound_vector_with_infinity_after_solve");
+            if(known(K_VECINF))
+            {
+               ev().count(std::string("excluded_known.") + K_VECINF);
+               return true;
+            }
+         }
+      }
       Arr<double> a(dim, SENT);
       VectorReal ref(n);
       const std::vector<Q>* src;
@@ -1474,7 +1608,7 @@ bool Runner::stepQuery(const Rec& r)
          if(!both("getObjReal", [&] { SoPlex_getObjReal(h, a.get(), dim); }, [&] { tw->getObjReal(ref); })) return true;
          src = &lp.obj;
       }
-      ev().count(dim == n ? "getvec.dim_exact" : "getvec.dim_prefix");
+      ev().count(dim == 0 ? "getvec.dim_zero" : "getvec.dim_exact");
       if(!sameBits(a.get(), ref.get_const_ptr(), dim)) return !bad(t, "array differs from the C++ vector getter");
       for(int j = 0; j < dim; j++) if(!okReal(a.get()[j], (*src)[j])) return !bad(t, "array differs from the values passed in");
       return true;
@@ -1596,6 +1730,15 @@ bool Runner::stepRational(const Rec& r)
          }
       }
       int nnz = nz + (int) r.i(2);
+      if(top > cur && maybeScaled)
+      {
+         ev().count("implicit_creation_after_solve");
+         if(known(K_IMPLSCALED))
+         {
+            ev().count(std::string("excluded_known.") + K_IMPLSCALED);
+            return true;
+         }
+      }
       Arr<long> an(nums), ad(dens);
       DSVectorRational vec;
       for(int i = 0; i < size; i++) if(nums[i] != 0) vec.add(i, rq(eq[i]));
@@ -1916,6 +2059,7 @@ bool Runner::stepFiles(const Rec& r)
          lp.offset = off;
          M.expI[SoPlex::OBJSENSE] = lp.sense;
          hadAdd = true;
+         maybeScaled = false;
       }
       else
       {
@@ -1935,11 +2079,11 @@ bool Runner::stepFiles(const Rec& r)
       }
       if((var == 1 && (m == 0 || n == 0)) || (var == 2 && n == 0)) var = 0;
       std::string body;
-      if(var == 1) body = std::string(" ") + (isFin(lp.rhs[0]) ? "XU" : "XL") + " x0 C0\n";
+      if(var == 1) body = std::string(" ") + (isFin(lp.rhs[0]) ? "XU" : "XL") + " x0        C0\n";   // fixed MPS columns
       if(var == 2)
       {
-         if(isFin(lp.lo[0])) body = " LL x0\n";
-         else if(isFin(lp.up[0])) body = " UL x0\n";
+         if(isFin(lp.lo[0])) body = " LL x0        \n";
+         else if(isFin(lp.up[0])) body = " UL x0        \n";
          else var = 0;
       }
       std::string f = path(".bas");
@@ -1973,20 +2117,26 @@ bool Runner::stepFiles(const Rec& r)
          {
             if(code < 0 || code >= SoPlex::INTPARAM_COUNT || code == SoPlex::SYNCMODE) continue;
             int val = (int) r.i(k + 2);
-            if(code == SoPlex::SIMPLIFIER && val == 3) continue;
+            if(code == SoPlex::SIMPLIFIER && val == SoPlex::SIMPLIFIER_PAPILO) continue;   // rejected without PaPILO
+            if(code == SoPlex::SCALER && val == SoPlex::SCALER_OFF && maybeScaled && known(K_SCALEROFF))
+            {
+               ev().count(std::string("excluded_known.") + K_SCALEROFF);
+               continue;
+            }
             os << "int:" << SoPlex::Settings::intParam.name[code] << " = " << val << "\n";
             wi[code] = val;
          }
          else if(ty == 1)
          {
             if(code < 0 || code >= SoPlex::BOOLPARAM_COUNT) continue;
+            if(code >= SoPlex::SIMPLIFIER_SINGLETONCOLS && code <= SoPlex::SIMPLIFIER_DOMINATEDCOLS) continue;   // rejected without PaPILO
             int val = r.i(k + 2) != 0;
             os << "bool:" << SoPlex::Settings::boolParam.name[code] << " = " << (val ? "true" : "false") << "\n";
             wb[code] = val;
          }
          else
          {
-            if(code < 0 || code >= SoPlex::REALPARAM_COUNT) continue;
+            if(code < 0 || code >= SoPlex::REALPARAM_COUNT || code == SoPlex::SIMPLIFIER_MODIFYROWFAC) continue;   // PaPILO only
             double val = dq(r.q(k + 2));
             char buf[64];
             snprintf(buf, sizeof buf, "%.17g", val);
@@ -2032,6 +2182,8 @@ static Verdict run(const Case& c)
       R_.dir = d ? d : ".";
       R_.ownDir = d != nullptr;
    }
+   std::string ctext = caseText(c);
+   R_.caseTextForCrash = &ctext;
    R_.create();
    int steps = 0;
    for(auto& r : c.recs)
